@@ -18,7 +18,7 @@ use subtle::{Choice, ConditionallySelectable};
 pub const OPS: &[&str] = &[
     "monty.reduction",
     "monty.params.new", "monty.params.new_vartime", "monty.params.trait", "monty.params.const", "monty.params.from_const",
-    "monty.params.boxed_from_const",
+    "monty.params.boxed_from_const", "monty.params.select", "monty.params.select_form",
     "monty.boxed_params.new", "monty.boxed_params.new_vartime", "monty.boxed_params.trait",
     "monty.history.dyn", "monty.history.const", "monty.history.const_dyn",
     "monty.boxed_history.boxed", "monty.boxed_history.const_boxed",
@@ -445,6 +445,25 @@ macro_rules! dyn_width {
             "monty.params.new" => params_from_debug(&format!("{:?}", mk(0)), $N),
             "monty.params.new_vartime" => params_from_debug(&format!("{:?}", mk(1)), $N),
             "monty.params.trait" => params_from_debug(&format!("{:?}", mk(2)), $N),
+            // args: chosen modulus, other modulus, flag. ConditionallySelectable for MontyParams / MontyForm across two
+            // DIFFERENT parameter sets: flag 0 selects `a` (= chosen) with Choice(0), flag 1 selects `b` (= chosen) with Choice(1)
+            "monty.params.select" | "monty.params.select_form" => {
+                use subtle::{Choice, ConditionallySelectable};
+                let chosen = MontyParams::<$N>::new(odd_uint::<$N>(ar(a, 0)));
+                let other = MontyParams::<$N>::new_vartime(odd_uint::<$N>(ar(a, 1)));
+                let flag = sc(a, 2) & 1;
+                if op == "monty.params.select" {
+                    let r = if flag == 0 { MontyParams::<$N>::conditional_select(&chosen, &other, Choice::from(0)) }
+                            else { MontyParams::<$N>::conditional_select(&other, &chosen, Choice::from(1)) };
+                    params_from_debug(&format!("{:?}", r), $N)
+                } else {
+                    let fc = MontyForm::<$N>::one(chosen);
+                    let fo = MontyForm::<$N>::one(other);
+                    let r = if flag == 0 { MontyForm::<$N>::conditional_select(&fc, &fo, Choice::from(0)) }
+                            else { MontyForm::<$N>::conditional_select(&fo, &fc, Choice::from(1)) };
+                    params_from_debug(&format!("{:?}", r.params()), $N)
+                }
+            }
             "monty.history.dyn" => { let p = mk(sc(a, 1)); run_history::<MontyForm<$N>>(&p, a) }
             "monty.reduction" => {
                 let (lo, hi, m): (Uint<$N>, Uint<$N>, Odd<Uint<$N>>) = (u(ar(a, 0)), u(ar(a, 1)), odd_uint::<$N>(ar(a, 2)));
